@@ -22,7 +22,7 @@ ASSUMPTIONS = [
     "reference: the n-th message (1-based) to a destination carries id ((n-1) mod 65535)+1 and, for SD, the reboot flag iff n <= 65535",
     "thread interleavings of assign_outgoing are not explored (call histories only)",
 ]
-BUDGET = {"quick": {"examples": 96, "shrink": 40}, "thorough": {"examples": 1600, "shrink": 200}}
+BUDGET = {"quick": {"examples": 320, "shrink": 40}, "thorough": {"examples": 4800, "shrink": 200}}
 EXHAUSTIVE = "one destination walked through 2 x 65535 + 10 consecutive SD sends (fixed case), i.e. the complete cycle of (flag, id) states twice"
 
 DESTS = [None] + ADDRS + [("2001:db8::3", 30490, 0, 7)]   # the last one differs from ADDRS[1] in its scope id only
@@ -71,7 +71,8 @@ def _case(draw):
         if draw(st.integers(0, 4)) == 0:
             blocks.append(["recv", draw(st.integers(0, 2)), draw(st.sampled_from([0, 1, 1]))])
             continue
-        c = draw(st.one_of(st.sampled_from([1, 2, 3, 100, 65534, 65535, 65536]), st.integers(1, 300)))
+        # wrap-crossing blocks are expensive (65535 real sends): one block in eight, the rest are short
+        c = draw(st.sampled_from([65534, 65535, 65536])) if draw(st.integers(0, 7)) == 0 else draw(st.one_of(st.sampled_from([1, 2, 3, 100]), st.integers(1, 300)))
         c = min(c, budget)
         if c <= 0:
             break
